@@ -250,7 +250,8 @@ fn fix_rust_discriminants(vs: &mut Vec<VariantD>) {
         let mut clash: Option<usize> = None;
         for (k, v) in vs.iter().enumerate() {
             cur = v.discriminant.as_ref().map(|d| d.1 as i64).unwrap_or(cur + 1);
-            if seen.insert(cur, k).is_some() {
+            // a value past 255 would overflow a #[repr(u8)] enum (and is no SCALE index anyway)
+            if seen.insert(cur, k).is_some() || cur > 255 {
                 clash = Some(k);
                 break;
             }
@@ -323,8 +324,8 @@ pub fn def(idx: usize, prev: Vec<Def>, o: DefOpts) -> BoxedStrategy<Def> {
             let body: BoxedStrategy<Body> = if is_enum {
                 let variant = (shape(), fields(true), prop::option::weighted(0.25, any::<u8>()), prop::bool::weighted(0.12), if o.rich_attrs { docs().boxed() } else { Just(vec![]).boxed() }, any::<u16>())
                     .prop_map(|(shape, fs, index, skip, docs, vsalt)| VariantD { name: String::new(), shape, fields: name_fields(shape, fs, vsalt), index, skip, discriminant: None, docs });
-                (vec(variant, 1..6), any::<u16>(), prop::bool::weighted(0.25), vec(prop::sample::select(DISCRIMINANTS.to_vec()), 6))
-                    .prop_map(move |(mut vs, vsalt, fieldless, discs)| {
+                (vec(variant, 1..6), any::<u16>(), prop::bool::weighted(0.25), vec(prop::sample::select(DISCRIMINANTS.to_vec()), 6), prop::bool::weighted(0.3))
+                    .prop_map(move |(mut vs, vsalt, fieldless, discs, with_repr)| {
                         for (k, v) in vs.iter_mut().enumerate() {
                             let base = VARIANT_NAMES[(vsalt as usize + k) % VARIANT_NAMES.len()];
                             v.name = base.to_string();
@@ -344,6 +345,18 @@ pub fn def(idx: usize, prev: Vec<Def>, o: DefOpts) -> BoxedStrategy<Def> {
                                     v.discriminant = Some((s.to_string(), n));
                                 }
                             }
+                        }
+                        if with_repr && !fieldless {
+                            // #[repr(int)] enum: explicit discriminants are allowed on variants with fields
+                            for (k, v) in vs.iter_mut().enumerate() {
+                                if (k + vsalt as usize) % 3 != 0 {
+                                    let (s, n) = discs[k % discs.len()];
+                                    // the expression is evaluated in the repr type: keep intermediates in u8 range
+                                    let s = if s.contains("300") { "250" } else { s };
+                                    v.discriminant = Some((s.to_string(), n));
+                                }
+                            }
+                            vs.push(VariantD { name: "__repr_marker".into(), shape: Shape::Unit, fields: vec![], index: None, skip: true, discriminant: None, docs: vec![] });
                         }
                         // at least one variant must be constructible
                         if vs.iter().all(|v| v.skip) {
@@ -368,13 +381,33 @@ pub fn def(idx: usize, prev: Vec<Def>, o: DefOpts) -> BoxedStrategy<Def> {
             )
                 .prop_map(move |(skip, cd, repl, crate_attr, split)| (skip, cd, repl, crate_attr, split));
             let encode = o.encode;
-            (body, attr, if rich { docs().boxed() } else { Just(vec![]).boxed() }, prop::bool::weighted(if rich { 0.1 } else { 0.0 }), vec(prop::sample::select(MODULE_NAMES.to_vec()), 1..3))
+            (body, attr, if rich { docs().boxed() } else { Just(vec![]).boxed() }, prop::bool::weighted(if rich { 0.35 } else { 0.0 }), vec(prop::sample::select(MODULE_NAMES.to_vec()), 1..3))
                 .prop_map(move |(body, (skip, cd, repl, crate_attr, split), docs, via_macro, modules)| {
                     let name = format!("{}{}", TYPE_NAMES[(salt as usize) % TYPE_NAMES.len()], idx);
                     let mut modules: Vec<String> = modules.into_iter().map(|s| s.to_string()).collect();
                     // one module tree per definition keeps module names from clashing
                     modules[0] = format!("{}{}", modules[0], idx);
-                    let mut d = Def { name, modules, n_params, lifetime, const_params: vec![], body, attr: ItemAttr::default(), docs, encode, via_macro: false };
+                    let mut body = body;
+                    let mut repr = None;
+                    if let Body::Enum(vs) = &mut body {
+                        // the marker variant only carries the decision to the item level
+                        if let Some(pos) = vs.iter().position(|v| v.name == "__repr_marker") {
+                            vs.remove(pos);
+                            repr = Some(["u8", "u16", "u32", "i32", "u64", "isize"][salt as usize % 6].to_string());
+                        }
+                    }
+                    if repr.is_some() {
+                        if let Body::Enum(vs) = &mut body {
+                            for v in vs.iter_mut() {
+                                if let Some((s, _)) = &mut v.discriminant {
+                                    if s.contains("300") {
+                                        *s = "250".into();
+                                    }
+                                }
+                            }
+                        }
+                    }
+                    let mut d = Def { name, modules, n_params, lifetime, const_params: vec![], body, attr: ItemAttr::default(), docs, encode, via_macro: false, repr };
                     d.map_member_types(&sanitize);
                     // a lifetime or parameter that no member uses would not compile
                     let fields: Vec<TE> = d.all_fields().iter().map(|f| f.ty.clone()).collect();
@@ -409,7 +442,25 @@ pub fn def(idx: usize, prev: Vec<Def>, o: DefOpts) -> BoxedStrategy<Def> {
                         d.attr.replace = rules;
                         d.attr.crate_attr = if crate_attr < 3 { 0 } else { crate_attr - 3 };
                         d.attr.split_attrs = split;
-                        d.via_macro = via_macro && matches!(&d.body, Body::Struct(Shape::Named, fs) if !fs.is_empty() && fs[0].attr == FieldAttr::default() && fs[0].docs.is_empty() && !fs[0].ty.any(&|t| matches!(t, TE::SelfTy | TE::Param(_) | TE::StrA | TE::SliceA(_)))) && d.n_params == 0 && !d.lifetime;
+                        // a definition with a lifetime: often route a lifetime-carrying member type through
+                        // a macro_rules! `$ty:ty` fragment (the derive sees it as a None-delimited group)
+                        let mut via_macro = via_macro;
+                        if d.lifetime && salt % 2 == 0 {
+                            if let Body::Struct(Shape::Named, fs) = &mut d.body {
+                                if !fs.is_empty() {
+                                    fs[0].ty = match salt / 2 % 4 {
+                                        0 => TE::StrA,
+                                        1 => TE::SliceA(Box::new(TE::U(8))),
+                                        2 => TE::Option(Box::new(TE::StrA)),
+                                        _ => TE::Tuple(vec![TE::StrA, TE::U(16)]),
+                                    };
+                                    fs[0].attr = FieldAttr::default();
+                                    fs[0].docs.clear();
+                                    via_macro = true;
+                                }
+                            }
+                        }
+                        d.via_macro = via_macro && matches!(&d.body, Body::Struct(Shape::Named, fs) if !fs.is_empty() && fs[0].attr == FieldAttr::default() && fs[0].docs.is_empty() && !fs[0].ty.any(&|t| matches!(t, TE::SelfTy)));
                     }
                     d
                 })
